@@ -353,7 +353,7 @@ def main(argv):
             reps = max(1, int(2 * a.scale))
         else:
             cfgs = (a.configs.split(",") if a.configs else ALL_CONFIGS)
-            reps = max(1, int(5 * a.scale))
+            reps = max(1, int(12 * a.scale))
         exes = build_many(cfgs)
         decl = load_declassified()
         entries = all_entries(rng, reps)
